@@ -16,7 +16,7 @@ for p in props:
         na.append({"property_id":p['id'],"reason":(c or {}).get('reason',"not yet claimed: contracts for this property are still under construction (see DESIGN.md)")})
 m={"version":1,
  "setup_cmd":"cd /verif/govc && GOFLAGS=-mod=mod GOPROXY=off GOSUMDB=off GOTOOLCHAIN=local go build -o /verif/bin/govc .",
- "hooks":{"guard":"verif","enable":"-tags verif: the hook files are the comment-only contract files <pkg>/verif_contracts.go and one file of ghost Go code, util/verif_lemmas.go (two lemma functions that are never called), all //go:build verif; govc loads /repo with the tag on","baseline_off_cmd":"cd /repo && GOFLAGS=-mod=mod GOPROXY=off GOSUMDB=off GOTOOLCHAIN=local go test -vet=off -count=1 -timeout 25m ./...","source_commits":hooks,"add_only":True},
+ "hooks":{"guard":"verif","enable":"-tags verif: the hook files are the comment-only contract files <pkg>/verif_contracts.go and two files of ghost Go code, util/verif_lemmas.go (two lemma functions) and base/bmatch/verif_lemmas.go (two harness functions around the real match-operator constructors), none of them ever called, all //go:build verif; govc loads /repo with the tag on","baseline_off_cmd":"cd /repo && GOFLAGS=-mod=mod GOPROXY=off GOSUMDB=off GOTOOLCHAIN=local go test -vet=off -count=1 -timeout 25m ./...","source_commits":hooks,"add_only":True},
  "engines":[{"name":"govc","path":"/verif/govc","serves_properties":[c['property_id'] for c in checks],"kind_free_text":"contract-based deductive verifier for Go written for this task: VC generation by forward symbolic execution over go/ssa (NaiveForm), contracts in //@ comment files behind the verif build tag, Houdini inference for safety invariants, obligations discharged by a z3 4.8 / z3 5.1 / cvc5 portfolio"}],
  "checks":checks,"not_applicable":na,
  "notes":"Every check reloads /repo's working tree with -tags verif, regenerates all obligations and discharges them; known findings are listed in /verif/known_findings.json."}
